@@ -121,8 +121,10 @@ func c16GenScript(t *rapid.T, cfgPhase bool, needHold bool) c15Script {
 	case 0:
 		sc.Refuse = true
 	case 1, 2, 3:
-		sc.FaultAt = rapid.SampledFrom(stages).Draw(t, "fault_at")
-		sc.Fault = rapid.SampledFrom([]string{"kick", "close"}).Draw(t, "fault")
+		// (biased to a kick after the backend accepted the login and before JoinGame:
+		// the one failure whose recoverability depends on the connection type)
+		sc.FaultAt = rapid.SampledFrom(append(append([]string(nil), stages...), c15StPreJoin)).Draw(t, "fault_at")
+		sc.Fault = rapid.SampledFrom([]string{"kick", "kick", "close"}).Draw(t, "fault")
 	}
 	if sc.HoldAt != "" && sc.FaultAt != "" {
 		// a fault can only follow the hold
@@ -288,6 +290,7 @@ type c16Snap struct {
 	cur      *serverConnection
 	dials    int
 	events   int
+	alive    bool // the client was still connected to the proxy
 }
 
 type c16Exec struct {
@@ -330,6 +333,7 @@ func (x *c16Exec) label(l string) { x.labels[l] = true }
 
 func (x *c16Exec) snapshot() c16Snap {
 	inFlight, cur := x.player.connectionInFlight(), x.player.connectedServer()
+	alive := x.alive()
 	x.rig.mu.Lock()
 	defer x.rig.mu.Unlock()
 	n := 0
@@ -338,7 +342,7 @@ func (x *c16Exec) snapshot() c16Snap {
 			n++
 		}
 	}
-	return c16Snap{inFlight: inFlight, cur: cur, dials: len(x.rig.dials), events: n}
+	return c16Snap{inFlight: inFlight, cur: cur, dials: len(x.rig.dials), events: n, alive: alive}
 }
 
 func (x *c16Exec) issue(t, api int, sc *c15Script) *c16Req {
@@ -801,9 +805,17 @@ func (x *c16Exec) judge(site string, q *c16Req, pred string, before c16Snap) {
 			x.fail("status:"+site, "request %s to failing %s%s: got %q; %s", q.id, q.target, q.via(), q.status, x.describe())
 		}
 		if before.cur != nil {
-			// safe failure before the previous server was left: still there, same connection
+			// safe failure before the previous server was left: the player is still
+			// connected to the proxy ...
+			if before.alive && !x.alive() {
+				x.fail("failure:player-disconnected", "request %s to %s%s failed (%s %s) before the backend accepted the login while the player was on %s: safe to recover from, but the proxy disconnected the player; %s",
+					q.id, q.target, q.via(), q.status, q.errText, before.cur.server.info.Name(), x.describe())
+			}
+			// ... and still there, same connection
 			if now := x.player.connectedServer(); now != before.cur {
-				if q.api == c16APIConnect || x.alive() {
+				// (a player the proxy disconnected because of this failure has lost its
+				// previous server just the same: the failure was safe to recover from)
+				if q.api == c16APIConnect || x.alive() || before.alive {
 					x.fail("failure:previous-server-lost", "request %s to %s%s failed (%s %s) before the backend accepted the login, but the player is no longer on its previous server %s; %s",
 						q.id, q.target, q.via(), q.status, q.errText, before.cur.server.info.Name(), x.describe())
 				}
